@@ -86,8 +86,8 @@ Emit == InFamily => PrintT(ToJson([blocks |-> prof, d |-> Dim(prof, 1), exp |-> 
 
 PatA == { <<1, 1>>, <<1, -1>>, <<2, 0>>, <<1, 2>>, <<3, 1>>, <<-1, 2, 1>>, <<2, 2, 0>> }
 CntA == {1, 2, 7, 500, 3000}
-ShA == {0, 3, -3, 10, -10}
+ShA == {0, 3, -3, 10, -10, -100, 120}
 CntQ == {1, 2, 3000}
 PatQ == { <<1, 1>>, <<1, -1>>, <<1, 2>>, <<3, 1>> }
-ShQ == {0, 3, -10}
+ShQ == {0, 3, -10, -100, 120}
 =============================================================================
